@@ -96,6 +96,44 @@ def evaluate(res):
     return corr, orc
 
 
+def tsm_family(rep, tier, seed, replay=None):
+    """the four lookups of a target/source tree (cells and leaves, source and target side) against the structure of that side"""
+    import tsm
+    from props import C09
+    binaries, bad = tsm.build(corefam.ALL_CONFIGS, starpu=True)
+    if not binaries:
+        if bad:
+            first = sorted(bad.items())[0]
+            rep.violation("harness-does-not-compile:tsm", first[1][-4000:], False, "no configuration of harness/h_tsm.cpp compiles against /repo/src (the target/source interface changed)")
+        return
+    usable = [c for c in corefam.ALL_CONFIGS if c in binaries]
+    cases = [tsm.parse_replay(replay)] if replay else C09.gen_cases("quick", seed + 53, usable)[:(60 if tier == "quick" else 1500)]
+    n = 0
+    for res in core.run_cases(cases, binaries):
+        n += 1
+        c = res.case
+        text = "\n".join(c["lines"]) + "\n"
+        if res.crash is not None:
+            rep.violation("crash:" + corefam.crash_signature(res.crash), "# harness aborted inside this target/source case\n# " + res.crash.replace("\n", "\n# ") + "\n" + text, True,
+                          "the real library aborted on target/source case %s: %s" % (c["name"], corefam.crash_signature(res.crash)))
+            continue
+        if res.cpp is None or res.lean is None:
+            continue
+        head = [ln for ln in res.cpp if ln[:2] in ("sS", "tS") or ln.startswith("F ")]
+        for sig, msg in C09.structure_checks(c, head):
+            if sig.startswith("C09:lookup"):
+                rep.violation("C16:tsm-" + sig.split(":")[1], "# %s\n%s" % (msg, text), True, "target/source case %s: %s" % (c["name"], msg))
+        lhead = [ln for ln in res.lean if ln.startswith("F ")]
+        if [ln for ln in head if ln.startswith("F ")] != lhead and not any(s_.startswith("C09:lookup") for s_, _ in C09.structure_checks(c, head)):
+            rep.violation("corr:tsm-find", "# target/source lookups differ between library and model\n" + text, False, "target/source case %s: lookups differ between library and model" % c["name"])
+    rep.cov["target_source_lookup_cases"] = n
+
+
 def run(rep, tier, seed, replay, proof_ok, proof_msg):
+    if replay and any(ln.startswith("partsS ") for ln in open(replay)):
+        tsm_family(rep, tier, seed, replay)
+        return
     corefam.standard_run(rep, tier, seed, replay, proof_ok, proof_msg, gen_cases, evaluate)
-    rep.assumptions += ["source/target trees are exercised by C09's check"]
+    if not replay:
+        tsm_family(rep, tier, seed)
+    rep.assumptions += ["source/target trees: the four lookups are probed on C09's input families (present, absent, gap and out-of-range indices on both sides)"]
